@@ -444,7 +444,7 @@ class Check:
             if nviol <= 5:
                 tail = " no-failing-input-found" if v["no_input"] else ""
                 lines.append("VIOLATION property=%s replay=%s%s" % (self.pid, os.path.relpath(rp, VERIF), tail))
-                lines.append("  # " + v["what"][:300])
+                lines.append("  # " + v["what"][:300].replace("\n", " ⏎ "))
         cov = dict(self.coverage)
         cov["distinct_nontrivial"] = len(self._distinct)
         cov["obligations"] = len(self.obligations)
